@@ -183,7 +183,10 @@ Fixpoint split_every (n : nat) (k : nat) (l : list Z) : list (list Z) :=
 
 Definition delta_cap : N := 4000000%N.
 
-Definition read_chunk (meta : option doc) (d : doc) : chunk + rerr :=
+(* [cap]: the Go code allocates nmetrics*ndeltas words whatever their number; the
+   executable instance of the model refuses absurd products (Some cap) instead of
+   building a unary number of that size; the theorems are about [None] *)
+Definition read_chunk_gen (cap : option N) (meta : option doc) (d : doc) : chunk + rerr :=
   match lookup k_data d with
   | None => inr ENoData
   | Some (VBinary _ zb) =>
@@ -201,7 +204,7 @@ Definition read_chunk (meta : option doc) (d : doc) : chunk + rerr :=
                   let ndeltas := le_dec (skipn 4 w) in
                   let ms := metrics_of_doc [] ref in
                   if negb (nmetrics =? N.of_nat (length ms))%N then inr EMismatch
-                  else if (delta_cap <? nmetrics * ndeltas)%N then inr EHuge
+                  else if (match cap with Some c => (c <? nmetrics * ndeltas)%N | None => false end) then inr EHuge
                   else
                     match read_deltas (N.to_nat (nmetrics * ndeltas)) 0%N r2 with
                     | None => inr EVarint
@@ -221,18 +224,21 @@ Definition read_chunk (meta : option doc) (d : doc) : chunk + rerr :=
 
 (* readChunks over the sequence of outer documents: type 0 = metadata (kept for
    later chunks), type 1 = chunk, anything else skipped; stops at the first error *)
-Fixpoint read_chunks (meta : option doc) (ds : list doc) : list chunk * option rerr :=
+Fixpoint read_chunks_gen (cap : option N) (meta : option doc) (ds : list doc) : list chunk * option rerr :=
   match ds with
   | [] => ([], None)
   | d :: r =>
       let ty := lookup k_type d in
-      if is_num 0 ty then read_chunks (Some d) r
-      else if negb (is_num 1 ty) then read_chunks meta r
-      else match read_chunk meta d with
-           | inl c => let '(cs, e) := read_chunks meta r in (c :: cs, e)
+      if is_num 0 ty then read_chunks_gen cap (Some d) r
+      else if negb (is_num 1 ty) then read_chunks_gen cap meta r
+      else match read_chunk_gen cap meta d with
+           | inl c => let '(cs, e) := read_chunks_gen cap meta r in (c :: cs, e)
            | inr e => ([], Some e)
            end
   end.
+
+Definition read_chunk := read_chunk_gen None.
+Definition read_chunks := read_chunks_gen None.
 
 (* ------------------------------------------------------------------ views *)
 (* the row of sample i: one value per metric *)
